@@ -68,7 +68,7 @@ func minInt(a, b int) int {
 }
 
 func (g *wsG) peer(fin bool, rsv, op int, masked bool, payload []byte) {
-	g.emit("peer %d %d %d %d %s", b01(fin), rsv, op, b01(masked), hx(payload))
+	g.emit("peer %d %d %d %d %s", b01(fin), rsv, op, b01(masked), wsHx(payload))
 }
 
 // conforming data frame (whole message or the next fragment)
@@ -237,9 +237,9 @@ func (g *wsG) localCall() {
 		if g.r.intn(10) == 0 {
 			n = g.max + 1
 		}
-		g.emit("write %s %d %s", g.sa(), 1+g.r.intn(2), hx(g.r.bytes(n)))
+		g.emit("write %s %d %s", g.sa(), 1+g.r.intn(2), wsHx(g.r.bytes(n)))
 	case 8:
-		g.emit("writeframe %s %d %d %s", g.sa(), g.r.intn(2), g.r.pick(0, 1, 2, 9), hx(g.r.bytes(g.clen())))
+		g.emit("writeframe %s %d %d %s", g.sa(), g.r.intn(2), g.r.pick(0, 1, 2, 9), wsHx(g.r.bytes(g.clen())))
 	case 9:
 		g.emit("flush %s", g.sa())
 	case 10:
@@ -247,7 +247,7 @@ func (g *wsG) localCall() {
 		if g.r.intn(5) == 0 {
 			c = g.r.intn(65536)
 		}
-		g.emit("close %s %d %s", g.sa(), c, hx(wsGoodReasons[g.r.intn(len(wsGoodReasons))]))
+		g.emit("close %s %d %s", g.sa(), c, wsHx(wsGoodReasons[g.r.intn(len(wsGoodReasons))]))
 	default:
 		g.read()
 	}
@@ -303,7 +303,7 @@ func wsGen(r *rng, maxops int, w *bufio.Writer) {
 		return
 	}
 	// C15 mutation stream: a conforming session with exactly one violation at a random position
-	rounds := 1 + r.intn(maxInt(1, n/3))
+	rounds := 1 + r.intn(wsMaxInt(1, n/3))
 	at := r.intn(rounds)
 	for k := 0; k < rounds; k++ {
 		if k == at {
@@ -323,9 +323,9 @@ func wsGen(r *rng, maxops int, w *bufio.Writer) {
 			for q := 1 + r.intn(4); q > 0; q-- {
 				switch r.intn(6) {
 				case 0:
-					g.emit("write %s %d %s", g.sa(), 1+r.intn(2), hx(r.bytes(g.plen())))
+					g.emit("write %s %d %s", g.sa(), 1+r.intn(2), wsHx(r.bytes(g.plen())))
 				case 1:
-					g.emit("writeframe %s 1 %d %s", g.sa(), r.pick(1, 2, 9), hx(r.bytes(g.clen())))
+					g.emit("writeframe %s 1 %d %s", g.sa(), r.pick(1, 2, 9), wsHx(r.bytes(g.clen())))
 				case 2:
 					g.emit("flush %s", g.sa())
 				case 3:
@@ -344,7 +344,7 @@ func wsGen(r *rng, maxops int, w *bufio.Writer) {
 			g.read()
 		}
 		if r.intn(5) == 0 {
-			g.emit("write %s %d %s", g.sa(), 1+r.intn(2), hx(r.bytes(g.plen())))
+			g.emit("write %s %d %s", g.sa(), 1+r.intn(2), wsHx(r.bytes(g.plen())))
 		}
 	}
 	// drain what is left
@@ -368,7 +368,7 @@ func (g *wsG) conforming() {
 	}
 }
 
-func maxInt(a, b int) int {
+func wsMaxInt(a, b int) int {
 	if a > b {
 		return a
 	}
